@@ -12,6 +12,7 @@ mod c19;
 mod c05;
 mod c06;
 mod c08;
+mod c08s;
 mod c09;
 mod c10;
 mod c12;
